@@ -41,6 +41,17 @@ def run(ctx):
             r["failures"] += fails
             r["evaluations"] += n
         results.append(r)
+    # sub-second, irregular time axes (rate of change): every time carrier must give the same flags
+    import fn_rate
+    roc = fn_rate.Roc()
+    sub = cc.roc_subsecond_cases(rng, 60 if tier == "quick" else 600)
+    rsub = adapters.run_adapter(roc, sub, rng, repeat_frac=0)
+    for c in sub:
+        n, fails = cc.c15_failures("rate_of_change_test", roc, c, rng, full=True)
+        n_car += n
+        rsub["failures"] += fails
+        rsub["evaluations"] += n
+    results.append(rsub)
     out = adapters.merge(
         results,
         rule="per test: sampled in-domain cases re-run with the data / auxiliary inputs, the time axis and the parameter "
